@@ -4,8 +4,9 @@ Bounded-exhaustive enumeration (engine E2 + ordered pairs), DESIGN section 4/C18
 
 Case kinds (every case is a JSON descriptor executed by `_exec`, in the explorer and in replay alike):
 
-* assign — open a base package (default template: has a core-properties part; no-core-props.pptx:
-  has none), read all 15 properties, apply 1 or 2 assignments, after each compare the outcome
+* assign — open a base package (with a core-properties part: the default template, tests/test_files/
+  minimal.pptx; without one: tests/test_files/no-core-props.pptx and `minimal-nocore` = minimal.pptx with
+  the part, its relationship and its content-type Override removed by the harness), read all 15 properties, apply 1 or 2 assignments, after each compare the outcome
   (accepted / ValueError) and ALL 15 readings with a dict reference model (second assignment of a
   property supersedes, other properties do not move, a rejected assignment changes nothing); then two
   save/re-open cycles: after each, docProps/core.xml (found with the harness's own OPC reader, parsed
@@ -13,7 +14,7 @@ Case kinds (every case is a JSON descriptor executed by `_exec`, in the explorer
   before the cycle. For the package without the part: a core-properties relationship + part + content
   type must exist in the saved package after first access.
 * years  — one date property, every year of a range (in memory): set datetime, read back.
-* read   — docProps/core.xml of the default template is replaced (harness zip writer) by one whose
+* read   — docProps/core.xml of minimal.pptx is replaced (harness zip writer) by one whose
   dcterms:created, dcterms:modified and cp:lastPrinted carry a W3CDTF text; the package is loaded
   through the library and the three readings are compared with mc.oracles.w3cdtf_ref.
 * corpus — every deck of the repository corpus: readings agree with a bare-lxml reading of the part
@@ -35,7 +36,10 @@ Oracle decisions (weaker reading where the statement is silent or ambiguous):
 Deviations from DESIGN: the "part c14n-unchanged after ValueError" demand is weakened to "readings
 unchanged" (the statement only says ValueError is raised); an extra BMP class of XML characters
 (U+0085, U+2028, U+D7FF, U+E000, U+FFFD, NBSP) and a corpus sweep were added; thorough enumerates every
-string length 0..256 and every year 1..9999 is enumerated in both tiers.
+string length 0..256 and every year 1..9999 is enumerated in both tiers. For cost, string singles, the
+ordered pairs (quick tier), the years and the read cases run on the 16-member minimal.pptx instead of the
+36-member default template; date/revision singles run on the default template and no-core-props.pptx in both
+tiers, and thorough repeats boundary-length strings and all pairs on those two as well.
 """
 
 from __future__ import annotations
@@ -56,7 +60,8 @@ from mc.oracles import w3cdtf_ref as W
 _parser = etree.XMLParser(resolve_entities=False, no_network=True)
 
 LEVEL = "exploration"
-RULE = ("assign: base package x (single assignment: 11 string properties x length set x 6 character classes; "
+RULE = ("assign: base package (default template, minimal.pptx, no-core-props.pptx, minimal.pptx stripped of its core "
+        "part) x (single assignment: 11 string properties x length set x 6 character classes; "
         "3 date properties x datetime set incl. non-datetime values; revision x value set) plus ALL ordered "
         "pairs over a reduced assignment set (15 properties x {2-3 valid, 1 invalid}); each case = in-memory "
         "read-back of all 15 properties against a dict model + 2 save/re-open cycles with schema validation of "
